@@ -25,6 +25,8 @@ os.environ.setdefault("PYTHONHASHSEED", "0")
 os.environ.setdefault("AEGEAN_VERIF", "1")
 os.environ.setdefault("TQDM_DISABLE", "1")
 os.environ.setdefault("PYTHONWARNINGS", "ignore")
+import warnings  # noqa: E402
+warnings.simplefilter("ignore")     # this process too (self-driving checks import AegeanTools here)
 os.environ["PYTHONPATH"] = HERE + os.pathsep + os.environ.get("PYTHONPATH", "")
 
 from mc import core  # noqa: E402
